@@ -273,6 +273,7 @@ func runC02(c *Ctx) {
 			}
 		})
 		rep.Count("encryptions_that_took_the_all_zero_kdf_retry_branch", retried)
+		rep.Require("encryptions_that_took_the_all_zero_kdf_retry_branch", 1)
 		if retried == 0 {
 			rep.Note("the all-zero-KDF retry branch was not reached in this run")
 		}
